@@ -30,10 +30,16 @@ type config struct {
 	rev2, litMinus, litPlus, utf8Cap, enableUTF8 bool
 	quiet                                        bool     // verify client silence before answering a sync literal
 	decisions                                    []string // per sync literal: "+", "NO", "BAD"
+	// the capabilities may change in the middle of a session: after a later
+	// LOGIN (alt != nil) the server advertises *alt instead; tagged OKs of
+	// LOGIN / UNAUTHENTICATE carry a CAPABILITY code or not (then the client
+	// has to ask)
+	alt                   *config
+	loginCode, unauthCode bool
 }
 
 func (c config) caps() string {
-	l := []string{"IMAP4rev1", "ENABLE", "MOVE", "UIDPLUS", "SORT", "THREAD=REFERENCES", "QUOTA", "METADATA"}
+	l := []string{"IMAP4rev1", "ENABLE", "MOVE", "UIDPLUS", "SORT", "THREAD=REFERENCES", "QUOTA", "METADATA", "UNAUTHENTICATE"}
 	if c.rev2 {
 		l = append(l, "IMAP4rev2")
 	}
@@ -50,7 +56,11 @@ func (c config) caps() string {
 }
 
 func (c config) String() string {
-	return fmt.Sprintf("rev2=%v LITERAL-=%v LITERAL+=%v UTF8=ACCEPT(cap=%v,enabled=%v) quiet=%v decisions=%v", c.rev2, c.litMinus, c.litPlus, c.utf8Cap, c.enableUTF8, c.quiet, c.decisions)
+	s := fmt.Sprintf("rev2=%v LITERAL-=%v LITERAL+=%v UTF8=ACCEPT(cap=%v,enabled=%v) quiet=%v decisions=%v loginCode=%v unauthCode=%v", c.rev2, c.litMinus, c.litPlus, c.utf8Cap, c.enableUTF8, c.quiet, c.decisions, c.loginCode, c.unauthCode)
+	if c.alt != nil {
+		s += fmt.Sprintf(" after-relogin{rev2=%v LITERAL-=%v LITERAL+=%v UTF8=ACCEPT=%v}", c.alt.rev2, c.alt.litMinus, c.alt.litPlus, c.alt.utf8Cap)
+	}
+	return s
 }
 
 type fataler interface {
@@ -59,7 +69,8 @@ type fataler interface {
 
 // peer is the scripted server loop.
 type peer struct {
-	cfg      config
+	cfg      config // what is advertised now (rev2, litMinus, litPlus, utf8Cap change on relogin)
+	logins   int
 	s        *script.Server
 	mu       sync.Mutex
 	errs     []string
@@ -134,7 +145,24 @@ func (p *peer) loop() {
 				s.Sendf("* ENABLED\r\n%s OK done\r\n", cmd.Tag)
 			}
 		case "LOGIN":
-			s.Sendf("%s OK [CAPABILITY %s] logged in\r\n", cmd.Tag, p.cfg.caps())
+			p.logins++
+			if p.logins > 1 && p.cfg.alt != nil {
+				a := p.cfg.alt
+				p.cfg.rev2, p.cfg.litMinus, p.cfg.litPlus, p.cfg.utf8Cap = a.rev2, a.litMinus, a.litPlus, a.utf8Cap
+			}
+			if p.logins == 1 || p.cfg.loginCode {
+				s.Sendf("%s OK [CAPABILITY %s] logged in\r\n", cmd.Tag, p.cfg.caps())
+			} else {
+				s.Sendf("%s OK logged in\r\n", cmd.Tag)
+			}
+		case "UNAUTHENTICATE":
+			// RFC 8437 section 3: extensions enabled with ENABLE are disabled again
+			p.enabled = false
+			if p.cfg.unauthCode {
+				s.Sendf("%s OK [CAPABILITY %s] unauthenticated\r\n", cmd.Tag, p.cfg.caps())
+			} else {
+				s.Sendf("%s OK unauthenticated\r\n", cmd.Tag)
+			}
 		case "IDLE":
 			s.Send("+ idling\r\n")
 			if l, err := s.ReadRawLine(); err != nil || l != "DONE" {
@@ -201,7 +229,7 @@ func (p *peer) check(cmd *script.Command) {
 
 func genStr(t *rapid.T, label string) string { return gen.Bytes(t, label, true).S }
 
-var calls = []string{"Select", "Create", "Rename", "List", "Status", "Append", "Search", "Fetch", "Store", "Copy", "GetQuota", "GetQuotaRoot", "SetMetadata", "GetMetadata", "Sort", "Thread", "Login2", "Search", "Append", "Idle"}
+var calls = []string{"Select", "Create", "Rename", "List", "Status", "Append", "Search", "Fetch", "Store", "Copy", "GetQuota", "GetQuotaRoot", "SetMetadata", "GetMetadata", "Sort", "Thread", "Login2", "Search", "Append", "Idle", "Unauthenticate", "Enable", "Login2"}
 
 // prepare draws the arguments of one client call (in the test goroutine, as
 // rapid requires) and returns the call as a closure; errors returned by the
@@ -227,6 +255,10 @@ func prepare(t *rapid.T, c *imapclient.Client, name string) (desc string, do fun
 	case "Login2":
 		u, pw := genStr(t, "user"), genStr(t, "pass")
 		return fmt.Sprintf("Login(%q,%q)", clip(u), clip(pw)), func() error { return c.Login(u, pw).Wait() }
+	case "Unauthenticate":
+		return "Unauthenticate()", func() error { return c.Unauthenticate().Wait() }
+	case "Enable":
+		return "Enable(UTF8=ACCEPT)", func() error { _, err := c.Enable(imap.CapUTF8Accept).Wait(); return err }
 	case "Select":
 		m := gen.Mailbox(t, "mbox").S
 		return fmt.Sprintf("Select(%q)", clip(m)), func() error { _, err := c.Select(m, nil).Wait(); return err }
@@ -378,6 +410,11 @@ func TestPropSyntax(t *testing.T) {
 		cfg := config{rev2: rapid.Bool().Draw(t, "rev2"), litMinus: rapid.Bool().Draw(t, "literal-"), litPlus: rapid.IntRange(0, 3).Draw(t, "literal+") == 2,
 			utf8Cap: rapid.Bool().Draw(t, "utf8cap"), quiet: rapid.IntRange(0, 3).Draw(t, "quiet") != 0}
 		cfg.enableUTF8 = cfg.utf8Cap && rapid.Bool().Draw(t, "enableUTF8")
+		cfg.loginCode, cfg.unauthCode = rapid.Bool().Draw(t, "loginCode"), rapid.Bool().Draw(t, "unauthCode")
+		if rapid.IntRange(0, 2).Draw(t, "capschange") == 0 {
+			cfg.alt = &config{rev2: rapid.Bool().Draw(t, "rev2'"), litMinus: rapid.Bool().Draw(t, "literal-'"), litPlus: rapid.IntRange(0, 3).Draw(t, "literal+'") == 2,
+				utf8Cap: rapid.Bool().Draw(t, "utf8cap'")}
+		}
 		for i := 0; i < 12; i++ {
 			cfg.decisions = append(cfg.decisions, rapid.SampledFrom([]string{"+", "+", "+", "+", "+", "NO", "BAD"}).Draw(t, "decision"))
 		}
